@@ -448,8 +448,10 @@ def run_impl(sdef, typed, seed):
             tg.fab = FabProxy(saved_fab, rec)
         try:
             res = cls.build_random_tree(sdef)
-        except RecursionError:
-            raise
+        except RecursionError as e:
+            # the generated definitions end their recursion (acyclic relation graphs, or cycles whose count is 0 with
+            # probability >= 0.75 per level): unbounded recursion is a failure of the implementation
+            res = e
         except Exception as e:  # noqa
             res = e
     finally:
